@@ -30,7 +30,7 @@ func Run(ctx *core.Ctx) {
 	commandCases(add)
 	registryCases(add)
 	msgBundleCases(add)
-	randomDataCases(ctx, add, ctx.Pick(600, 150000))
+	randomDataCases(ctx, add, ctx.Pick(600, 400000))
 	ctx.AddEvals(int64(len(cases)))
 	res := RunIsolated(cases, 10*time.Second)
 	byFam := map[string]int{}
